@@ -750,6 +750,22 @@ def install_wrappers(eng):
     eng.field_types[("PersistentSet", "_inner")] = lambda v: (z3.And(V.is_ref(v), V.cls_of(V.Val.a(v)) == imid), imap)
     eng.field_types[("PersistentVector", "_inner")] = lambda v: (z3.And(V.is_ref(v), V.cls_of(V.Val.a(v)) == pvid), pvec)
 
+    def describe_wrapper(e, s, obj, term):
+        """Concrete persistent wrappers (e.g. lmap.EMPTY, lset.EMPTY, vec.EMPTY) that flow into symbolic state:
+        their wrapped library value is read from the live object (size and, for empty ones, the exact content)."""
+        if isinstance(obj, (PersistentMap, PersistentSet)) and len(obj._inner) == 0:
+            ia = V.fresh_int("const_inner")
+            s.assume(ia <= 0, V.cls_of(ia) == imid, V.dom_of(ia) == z3.K(V.Val, z3.BoolVal(False)), map_size(ia) == 0)
+            s.assume(z3.Select(s.field_array("_inner"), V.Val.a(term)) == V.mk_ref(ia))
+            s.assume(z3.Select(s.field_array("_meta"), V.Val.a(term)) == e.lift(obj._meta, s))
+        elif isinstance(obj, PersistentVector) and len(obj._inner) == 0:
+            ia = V.fresh_int("const_inner")
+            s.assume(ia <= 0, V.cls_of(ia) == pvid, V.seq_of(ia) == z3.Empty(V.ValSeq))
+            s.assume(z3.Select(s.field_array("_inner"), V.Val.a(term)) == V.mk_ref(ia))
+            s.assume(z3.Select(s.field_array("_meta"), V.Val.a(term)) == e.lift(obj._meta, s))
+
+    eng.const_describers.append(describe_wrapper)
+
     def via_inner(name):
         def fn(e, s, args, k):
             inner = e.load_field(s, args[0].t, "_inner", PersistentMap)
@@ -782,3 +798,37 @@ def install_assoc_model(eng):
             yield s1, obj
 
     eng.method_models[(PersistentMap, "assoc")] = Model("PersistentMap.assoc", assoc)
+
+    def dissoc(e, s, args, k):
+        if len(args) != 2:
+            raise Unsupported("dissoc model: exactly one key")
+        self, key = args
+        inner = e.load_field(s, self.t, "_inner", PersistentMap)
+        a = V.Val.a(inner.t)
+        m, d, n = V.map_of(a), V.dom_of(a), map_size(a)
+        kt = knorm(e, s, key)
+        new_inner = new_map_value(e, s, imap, m, z3.Store(d, kt, False), n - z3.If(z3.Select(d, kt), 1, 0))
+        obj = e.alloc(s, PersistentMap)
+        e.store_field(s, obj.t, "_inner", new_inner.t, PersistentMap)
+        e.store_field(s, obj.t, "_meta", z3.Select(s.field_array("_meta"), V.Val.a(self.t)), PersistentMap)
+        yield s, obj
+
+    eng.method_models[(PersistentMap, "dissoc")] = Model("PersistentMap.dissoc", dissoc)
+
+    from basilisp.lang.set import PersistentSet
+
+    def set_cons(e, s, args, k):
+        if len(args) != 2:
+            raise Unsupported("PersistentSet.cons model: exactly one element")
+        self, elem = args
+        inner = e.load_field(s, self.t, "_inner", PersistentSet)
+        a = V.Val.a(inner.t)
+        m, d, n = V.map_of(a), V.dom_of(a), map_size(a)
+        kt = knorm(e, s, elem)
+        new_inner = new_map_value(e, s, imap, z3.Store(m, kt, kt), z3.Store(d, kt, True), n + z3.If(z3.Select(d, kt), 0, 1))
+        obj = e.alloc(s, PersistentSet)
+        e.store_field(s, obj.t, "_inner", new_inner.t, PersistentSet)
+        e.store_field(s, obj.t, "_meta", z3.Select(s.field_array("_meta"), V.Val.a(self.t)), PersistentSet)
+        yield s, obj
+
+    eng.method_models[(PersistentSet, "cons")] = Model("PersistentSet.cons", set_cons)
